@@ -8,6 +8,7 @@ from ..core.repo import (AnalysisError, Repo, call_name, calls_in, definitions, 
                          kwarg, names_in, unparse, walk_no_nested_defs)
 from ..domains.algnf import NotArithmetic, Rat, from_ast
 from ..domains.kat import COL, ROW, Comp, Ext, KAT, Seq
+from ..domains import homog
 
 DR = "quantem.imaging.drift"
 IU = "quantem.core.utils.imaging_utils"
@@ -181,6 +182,8 @@ def run(check, repo: Repo) -> None:
     ok = len(acc) == 1 and isinstance(acc[0].op, ast.Add) and "np.bincount(inds_1D, weights=weights" in unparse(acc[0].value)
     check.decide(ok, "C15-R3", "bilinear_kde: the count map accumulates exactly the bilinear weights", "", imod.line(kde),
                  fail_detail="pix_count is not accumulated as bincount(inds_1D, weights=weights)")
+    # ---- R5/R6 fixed-point structure of align_translation ------------------------------------------------------
+    _fixed_point(check, repo)
     # ---- R4 borrowed rule instances: the NumPy registration helper behind align_translation (C13's rules on cross_correlation_shift / dft_upsample) ----
     from ..core.report import SubCheck
     from . import c13
@@ -287,6 +290,94 @@ def _knot_placement(check, mod, pre, repo=None) -> None:
                  fail_detail=f"scan vectors are {f} / {s}: not a rotation pair")
 
 
+def _fixed_point(check, repo: Repo) -> None:
+    """C15-R5/R6 — the structural half of the fixed-point clause ("identical images … the knots do not move")."""
+    mod, al = repo.func(f"{DR}:DriftCorrection.align_translation")
+    _, pre = repo.func(f"{DR}:DriftCorrection.preprocess")
+    check.analysed(f"{DR}:DriftCorrection.align_translation")
+    REG = ("cross_correlation_shift", "cross_correlation_shift_torch")
+
+    def is_reg(c) -> bool:
+        return isinstance(c, ast.Call) and (call_name(c) or "").split(".")[-1] in REG
+
+    def with_image(c: ast.Call) -> bool:
+        k = kwarg(c, "return_shifted_image")
+        return k is not None and not is_const(k, False)
+
+    def is_source(e):
+        if isinstance(e, homog.TupleElt) and is_reg(e.call):
+            if not with_image(e.call):
+                return None
+            return homog.H if e.index == 0 else homog.U
+        if is_reg(e) and not with_image(e):
+            return homog.H
+        return None
+
+    regs = [c for c in calls_in(al) if is_reg(c)]
+    check.floor("align_translation: registration calls", len(regs), 1)
+    hz = homog.Homog(al, is_source, lambda e: dotted(e) == "self.knots").run()
+    check.floor("align_translation: stores into the knots", len(hz.sinks), 1)
+    for st, kind, v in hz.sinks:
+        key = f"align_translation: `{unparse(st)[:70]}` moves the knots by an amount that vanishes with the measured shifts"
+        if kind == "aug?":
+            raise AnalysisError(f"align_translation: `{unparse(st)[:60]}` updates the knots with an operator other than +=/-= (not recognised)")
+        good = v in (homog.Z, homog.H) if kind == "aug+" else v == homog.K
+        if good:
+            check.holds("C15-R5", key, f"update is {v}: zero-preserving in the registration result", mod.line(st))
+        elif v == homog.C:
+            check.violated("C15-R5", key, "the update contains a non-zero constant that does not depend on the measured shifts: a stack of identical images "
+                           "(all shifts zero) still moves its knots — translation alignment has no fixed point", mod.line(st), definite=True, value=v)
+        else:
+            raise AnalysisError(f"align_translation: the knot update `{unparse(st)[:60]}` is not recognised as a zero-preserving function of the measured shifts")
+
+    # R6 — per-image loops treat every image alike: the image index only selects per-image entries
+    loops = []
+    for fn in (pre, al):
+        for n in walk_no_nested_defs(fn):
+            if isinstance(n, ast.For) and isinstance(n.target, ast.Name) and isinstance(n.iter, ast.Call) and call_name(n.iter) == "range" \
+                    and "self.shape[0]" in unparse(n.iter) and not any(is_reg(c) for c in calls_in(n)):
+                loops.append((fn, n))
+    check.floor("per-image loops (preprocess, align_translation)", len(loops), 5)
+    for fn, lp in loops:
+        ix = lp.target.id
+        bad, unknown = [], []
+        for st in lp.body:
+            for n in ast.walk(st):
+                if not (isinstance(n, ast.Name) and n.id == ix and isinstance(n.ctx, ast.Load)):
+                    continue
+                # climb to the statement: fine when the first structural ancestor is a subscript index
+                cur, verdict = n, None
+                from ..core.repo import parent as _parent
+                while cur is not st and verdict is None:
+                    p = _parent(cur)
+                    if p is None:
+                        break
+                    if isinstance(p, ast.Subscript) and cur is p.slice:
+                        verdict = "index"
+                    elif isinstance(p, (ast.Tuple, ast.Slice)):
+                        pass
+                    elif isinstance(p, (ast.JoinedStr, ast.FormattedValue)):
+                        verdict = "text"
+                    elif isinstance(p, (ast.BinOp, ast.UnaryOp)):
+                        verdict = "arith" if isinstance(st, (ast.Assign, ast.AugAssign, ast.Expr)) else "unknown"
+                    else:
+                        verdict = "unknown"
+                    cur = p
+                if verdict == "arith":
+                    bad.append(n)
+                elif verdict in (None, "unknown"):
+                    unknown.append(n)
+        key = f"{fn.name}: loop `for {ix} in {unparse(lp.iter)}` uses the image index only to select per-image entries"
+        if bad:
+            from ..core.repo import enclosing_stmt
+            check.violated("C15-R6", key, f"`{unparse(enclosing_stmt(bad[0]))[:90]}` computes with the image index: two identical images with the same scan direction are "
+                           f"placed / warped differently, so identical stacks are not a fixed point of the alignment", mod.line(bad[0]), definite=True)
+        elif unknown:
+            raise AnalysisError(f"{fn.name}: use of the image index `{ix}` outside a subscript not recognised (`{unparse(unknown[0])}` at {mod.line(unknown[0])})")
+        else:
+            check.holds("C15-R6", key, "", mod.line(lp))
+
+
 def _add_terms(e: ast.AST) -> list[ast.AST]:
     if isinstance(e, ast.BinOp) and isinstance(e.op, ast.Add):
         return _add_terms(e.left) + _add_terms(e.right)
@@ -301,8 +392,14 @@ MANIFEST = {
             "pair; the 2/3/4-knot arms evaluate one interp1d basis linspace(0,1,k) at the same parameter with the order set by "
             "the count only; the four bilinear weights are the products matching their corner offsets and sum to 1 as a "
             "polynomial identity, indices wrap into the output shape, and the count map passes only mass-conserving steps.",
-    "note": "Not decided: the fixed-point clause of align_translation (depends on the registration numerics of C13 — false today "
-            "through the numpy dft_upsample finding), exact mass conservation of scipy's Gaussian filter, interp1d numerics.",
-    "technique": "kinded-axis abstract interpretation + polynomial normal forms (weights, knot ends) + sibling-arm agreement",
+    "note": "Not decided: that the registration of two identical warped images measures exactly zero (numerics of C13; its structural "
+            "rules are borrowed as R4), exact mass conservation of scipy's Gaussian filter, interp1d numerics. Of the fixed-point clause the "
+            "structural half is decided (R5: the knot update is a zero-preserving function of the measured shifts; R6: per-image loops use the "
+            "image index only as a selector).",
+    "technique": "kinded-axis abstract interpretation + polynomial normal forms (weights, knot ends) + sibling-arm agreement + "
+                 "zero-preservation abstract interpretation of the knot update",
 }
+MANIFEST["text"] += (" Fixed-point structure (R5/R6): in align_translation every store into the knots adds a value that an abstract interpretation "
+                     "(lattice zero / vanishes-with-the-shifts / non-zero constant / unknown) proves to vanish when the registration results vanish; "
+                     "per-image loops of preprocess and align_translation use the image index only inside subscripts.")
 MANIFEST["text"] += " Borrowed instances (R4): C13's rules on the NumPy registration helper behind align_translation (cross_correlation_shift, dft_upsample)."
